@@ -119,7 +119,8 @@ fn test_values(kind: &str, f: &Value) -> Vec<FV> {
                       FV::Text(b"XFG\x01".to_vec()), FV::Text(b"a_b\0".to_vec()), FV::Num(1), FV::Num(0x00FFFFFF), FV::Num(0x01000000)],
         "f32" => vec![FV::Num(0), FV::Num(1.0f32.to_bits() as u64), FV::Num((-2.5f32).to_bits() as u64), FV::Num(f32::MAX.to_bits() as u64)],
         "dur" => vec![FV::Num(0), FV::Num(1), FV::Num(max), FV::Num(max / 2 + 1), FV::Num(6000)],
-        "spclose" => vec![FV::Num(0), FV::Num(1), FV::Num(4095), FV::Num(0x0800)],
+        // the four high bits are reserved ("high 4 bits : reserved / low 12 bits : closing speed"): a reader keeps the low twelve
+        "spclose" => vec![FV::Num(0), FV::Num(1), FV::Num(4095), FV::Num(0x0800), FV::Num(0x107b), FV::Num(0xb07b), FV::Num(0xf000), FV::Num(0xffff)],
         "sint" => vec![FV::Num(0), FV::Num(1), FV::Num(max), FV::Num(max / 2), FV::Num(max / 2 + 1)],
         "bytes" => vec![FV::Num(0x04030201)],
         _ => match (kind, fname(f)) {
@@ -449,7 +450,7 @@ pub fn run(ctx: &mut Ctx) {
                     if kind == "SMALL" && fname(f) == "UVal" { for (q, g) in fields.iter().enumerate() { if fname(g) == "SubT" { vals[q] = FV::Num(1); } } }
                     let c = image(k, compressed, &vals, &base_elems, &text);
                     // a boolean field holding more than 0/1, or a text filling its field, still decodes; only 0/1 re-encode identically
-                    let canonical = !(matches!(v, FV::Num(n) if *n > 1) && cls(f) == "uint" && is_bool_field(&ls, k, f));
+                    let canonical = !(matches!(v, FV::Num(n) if *n > 1) && cls(f) == "uint" && is_bool_field(&ls, k, f)) && !(cls(f) == "spclose" && matches!(v, FV::Num(n) if *n > 0xfff));
                     run_case(ctx, &ls, k, compressed, &c, &format!("{}={:?}", fname(f), v), j < 4 || j % 16 == 0, canonical);
                     n_fields += 1;
                 }
@@ -465,6 +466,7 @@ pub fn run(ctx: &mut Ctx) {
                     if tv.is_empty() { continue; }
                     let v = ctx.rng.pick(&tv).clone();
                     if matches!(&v, FV::Num(n) if *n > 1) && cls(f) == "uint" && is_bool_field(&ls, k, f) { canonical = false; }
+                    if cls(f) == "spclose" && matches!(&v, FV::Num(n) if *n > 0xfff) { canonical = false; }
                     vals[i] = v;
                 }
                 if kind == "SMALL" { continue; }   // value and sub-type are not independent: see sub_typed
